@@ -87,6 +87,10 @@ AMBIENT_STATE = (NONDETERMINISTIC - {'builtins.id', 'builtins.hash'}) | {
     'datetime.datetime.utcnow', 'datetime.date.today', 'uuid.uuid1',
     'uuid.uuid4', 'uuid.getnode', 'socket.gethostname', 'platform',
     'gc', 'weakref', 'atexit', 'signal', 'functools.lru_cache',
+    'warnings.catch_warnings', 'warnings.simplefilter',
+    'warnings.filterwarnings', 'warnings.resetwarnings', 'warnings.filters',
+    'logging.basicConfig', 'logging.disable', 'sys.setprofile',
+    'sys.settrace', 'sys.set_int_max_str_digits',
     'functools.cache', 'functools.cached_property',
 }
 
@@ -226,6 +230,34 @@ def wrappers(prog, funcs):
     return caching, unknown
 
 
+def known_library_name(path):
+    """Library functions the analysis has a classification for (what they
+    may raise / that they consult ambient state / that their result is an
+    opaque value computed from the arguments only)."""
+    return path in EXT_RAISES or path in PURE_EXT or \
+        path in TZ_DEPENDENT_CALLS or path in NONDETERMINISTIC or \
+        ambient(path) or path in OPAQUE_PURE
+
+
+# pure functions of their arguments whose result the analysis keeps as an
+# opaque term (no effect on the arguments, no ambient state)
+OPAQUE_PURE = {
+    'builtins.int.from_bytes', 'builtins.bytes.fromhex', 'builtins.float',
+    'builtins.complex', 'builtins.bytes.hex', 'builtins.ascii',
+    'builtins.callable', 'builtins.slice', 'math.floor', 'math.ceil',
+    'math.trunc', 'math.log10', 'math.isnan', 'math.isinf', 'math.isfinite',
+    'math.copysign', 'math.fabs', 'decimal.Context', 'fractions.Fraction',
+    'datetime.date', 'datetime.time', 'datetime.datetime.combine',
+    'datetime.datetime.strptime', 'datetime.datetime.fromisoformat',
+    'calendar.timegm', 'time.gmtime', 'time.struct_time', 'codecs.decode',
+    'codecs.encode', 'binascii.hexlify', 'binascii.unhexlify',
+    'unicodedata.normalize', 'copy.copy', 'copy.deepcopy',
+    'collections.OrderedDict', 'collections.namedtuple',
+    'collections.deque', 'collections.Counter', 'collections.defaultdict',
+    'types.MappingProxyType', 'enum.Enum', 'enum.IntEnum',
+}
+
+
 def ambient(path):
     if not isinstance(path, str):
         return False
@@ -250,6 +282,9 @@ def ext_value(interp, path):
         return False
     if path == 'builtins.None':
         return None
+    ov = operator_value(path)
+    if ov is not None:
+        return ov
     return E(path)
 
 
@@ -261,6 +296,9 @@ def lib_attr(interp, base, name, state, node, default):
     Ext, StructV, RegexV, LibMethod = _i().Ext, _i().StructV, _i().RegexV, \
         _i().LibMethod
     if isinstance(base, Ext):
+        ov = operator_value(base.path + '.' + name)
+        if ov is not None:
+            return ov
         return Ext(base.path + '.' + name)
     if isinstance(base, StructV):
         if name == 'size':
@@ -382,6 +420,11 @@ def generic_ext_call(interp, callee, args, kwargs, state, node):
     for et, why in EXT_RAISES.get(path, ()):
         interp.raise_pending(state, E(et), node, why)
     if path not in EXT_RAISES and path not in PURE_EXT:
+        if not known_library_name(path):
+            # nothing is known about what this function does to its
+            # arguments or what it returns: whatever follows is undecidable
+            raise _i().Unsupported('library call without a model: %s at %s'
+                                   % (path, interp.site(node)))
         interp.note('unmodelled library call %s at %s' %
                     (path, interp.site(node)))
     return Sym('extcall', path, tuple(_t(a) for a in args),
@@ -416,8 +459,7 @@ PURE_EXT = {'typing.cast', 'builtins.object', 'builtins.print',
             'builtins.memoryview', 'builtins.format', 'builtins.vars',
             'builtins.dir', 'builtins.chr', 'builtins.frozenset',
             'builtins.set', 'builtins.reversed', 'builtins.zip',
-            'builtins.enumerate', 'builtins.map', 'builtins.filter',
-            'builtins.sum', 'builtins.pow', 'time.time',
+            'builtins.enumerate', 'builtins.pow', 'time.time',
             'builtins.NotImplementedError', 'builtins.hex', 'builtins.oct',
             'builtins.bin'}
 
@@ -645,6 +687,19 @@ def _b_sorted(interp, args, kwargs, state, node):
             return interp.alloc(state, _i().ListObj(sorted(seq)))
         except TypeError:
             pass
+    if seq is not None and not kwargs and seq and all(
+            isinstance(x, tuple) and x and T.is_const(x[0]) and
+            not isinstance(x[0], Sym) for x in seq):
+        # tuples ordered by distinct constant first components: the later
+        # components never take part in a comparison
+        firsts = [x[0] for x in seq]
+        try:
+            if len(set(firsts)) == len(firsts):
+                order = sorted(range(len(seq)), key=lambda i: firsts[i])
+                return interp.alloc(state, _i().ListObj(
+                    [seq[i] for i in order]))
+        except TypeError:
+            pass
     kw = tuple(sorted((k, _t(v)) for k, v in kwargs.items()))
     return Sym('sorted', _t(args[0]), kw)
 
@@ -736,6 +791,292 @@ def _it_groupby(interp, args, kwargs, state, node):
         g, origin=interp.site(node)))) for k, g in groups]
     return interp.alloc(state, _i().ListObj(items,
                                             origin=interp.site(node)))
+
+
+# -- functools / operator / itertools ------------------------------------
+
+_OPERATOR_BINOPS = {
+    'add': ast.Add, 'sub': ast.Sub, 'mul': ast.Mult, 'and_': ast.BitAnd,
+    'or_': ast.BitOr, 'xor': ast.BitXor, 'lshift': ast.LShift,
+    'rshift': ast.RShift, 'floordiv': ast.FloorDiv, 'mod': ast.Mod,
+    'truediv': ast.Div, 'pow': ast.Pow, 'concat': ast.Add,
+}
+_OPERATOR_CMPS = {'eq': 'eq', 'ne': 'ne', 'lt': 'lt', 'le': 'le',
+                  'gt': 'gt', 'ge': 'ge'}
+
+
+def operator_value(path):
+    """The callable an ``operator.<name>`` reference denotes, or None."""
+    if not path.startswith('operator.'):
+        return None
+    name = path[len('operator.'):]
+    if name in _OPERATOR_BINOPS or name in _OPERATOR_CMPS or name in (
+            'not_', 'truth', 'is_', 'is_not', 'getitem', 'contains', 'neg',
+            'index', 'inv', 'invert'):
+        return _i().FuncV('op', name)
+    return None
+
+
+def _fn_partial(interp, args, kwargs, state, node):
+    if not args:
+        raise _i().Unsupported('functools.partial() without a function')
+    return _i().FuncV('partial', (args[0], tuple(args[1:]), dict(kwargs)))
+
+
+def _op_factory(kind):
+    def fn(interp, args, kwargs, state, node):
+        if kind in ('attrgetter', 'itemgetter') and not all(
+                T.is_const(a) and not isinstance(a, Sym) for a in args):
+            raise _i().Unsupported('operator.%s with run-time names' % kind)
+        return _i().FuncV(kind, (tuple(args), dict(kwargs)))
+    return fn
+
+
+def call_funcv(interp, fv, args, kwargs, state, node):
+    I_ = _i()
+    if fv.kind == 'partial':
+        f, pa, pk = fv.data
+        kw = dict(pk)
+        kw.update(kwargs)
+        return interp.call_value(f, list(pa) + list(args), kw, state, node)
+    if fv.kind == 'op':
+        name = fv.data
+        if name in _OPERATOR_BINOPS and len(args) == 2:
+            return binop(interp, _OPERATOR_BINOPS[name](), args[0], args[1],
+                         state, node)
+        if name in _OPERATOR_CMPS and len(args) == 2:
+            return interp.compare_values(_OPERATOR_CMPS[name], args[0],
+                                         args[1], state, node)
+        if name in ('not_',) and len(args) == 1:
+            return T.not_(interp.truth(args[0], state, node))
+        if name == 'truth' and len(args) == 1:
+            return interp.truth(args[0], state, node)
+        if name in ('is_', 'is_not') and len(args) == 2:
+            return interp.compare_values('is' if name == 'is_' else 'isnot',
+                                         args[0], args[1], state, node)
+        if name == 'getitem' and len(args) == 2:
+            return interp.subscript_value(args[0], args[1], state, node)
+        raise I_.Unsupported('operator.%s at %s' % (name, interp.site(node)))
+    if fv.kind == 'attrgetter':
+        names = fv.data[0]
+        vals = []
+        for nm in names:
+            v = args[0]
+            for part in nm.split('.'):
+                v = interp.getattr_value(v, part, state, node)
+            vals.append(v)
+        return vals[0] if len(vals) == 1 else tuple(vals)
+    if fv.kind == 'itemgetter':
+        keys = fv.data[0]
+        vals = [interp.subscript_value(args[0], k, state, node)
+                for k in keys]
+        return vals[0] if len(vals) == 1 else tuple(vals)
+    if fv.kind == 'methodcaller':
+        margs, mkw = fv.data
+        name = margs[0]
+        if not isinstance(name, str):
+            raise I_.Unsupported('methodcaller with a run-time name')
+        m = interp.getattr_value(args[0], name, state, node)
+        return interp.call_value(m, list(margs[1:]), dict(mkw), state, node)
+    raise I_.Unsupported('call of %r at %s' % (fv, interp.site(node)))
+
+
+def _static_or_list(interp, v, state):
+    """Elements of a compile-time sequence or of a closed list object
+    (guarded 'opt' elements included); None otherwise."""
+    if isinstance(v, Ref):
+        o = interp.obj(state, v)
+        if o.kind == 'list' and not o.more:
+            return list(o.items)
+    return static_sequence(interp, v, state)
+
+
+def _b_map(interp, args, kwargs, state, node):
+    f = args[0]
+    seqs = [_static_or_list(interp, a, state) for a in args[1:]]
+    lazy = [a for a in args[1:] if isinstance(a, _i().FuncV) and
+            a.kind in ('count', 'repeat')]
+    if any(s_ is None for s_, a in zip(seqs, args[1:])
+           if not (isinstance(a, _i().FuncV) and a.kind in ('count',
+                                                            'repeat'))):
+        raise _i().Unsupported('map over a run-time iterable at %s' %
+                               interp.site(node))
+    finite = [s_ for s_ in seqs if s_ is not None]
+    if not finite:
+        raise _i().Unsupported('map over unbounded iterables only')
+    n = min(len(s_) for s_ in finite)
+    if any(isinstance(x, Sym) and x.op == 'opt' for s_ in finite
+           for x in s_):
+        raise _i().Unsupported('map over guarded elements at %s' %
+                               interp.site(node))
+    cols = []
+    for a, s_ in zip(args[1:], seqs):
+        cols.append(s_[:n] if s_ is not None else _lazy_items(a, n))
+    del lazy
+    out = [interp.call_value(f, [c[i] for c in cols], {}, state, node)
+           for i in range(n)]
+    return interp.alloc(state, _i().ListObj(out, origin=interp.site(node)))
+
+
+def _lazy_items(fv, n):
+    if fv.kind == 'count':
+        start, step = fv.data
+        return [T.add(start, T.mul(step, i)) if not (
+            isinstance(start, int) and isinstance(step, int))
+            else start + step * i for i in range(n)]
+    if fv.kind == 'repeat':
+        return [fv.data[0]] * n
+    raise _i().Unsupported('lazy iterable %r' % (fv,))
+
+
+def _b_zip_lazy(interp, args, kwargs, state, node):
+    seqs = []
+    for a in args:
+        if isinstance(a, _i().FuncV) and a.kind in ('count', 'repeat'):
+            seqs.append(None)
+        else:
+            s_ = _static_or_list(interp, a, state)
+            if s_ is None:
+                return None
+            seqs.append(s_)
+    finite = [s_ for s_ in seqs if s_ is not None]
+    if not finite:
+        return None
+    n = min(len(s_) for s_ in finite)
+    cols = [s_[:n] if s_ is not None else _lazy_items(a, n)
+            for a, s_ in zip(args, seqs)]
+    return [tuple(c[i] for c in cols) for i in range(n)]
+
+
+def _it_count(interp, args, kwargs, state, node):
+    start = args[0] if args else kwargs.get('start', 0)
+    step = args[1] if len(args) > 1 else kwargs.get('step', 1)
+    return _i().FuncV('count', (start, step))
+
+
+def _it_repeat(interp, args, kwargs, state, node):
+    if len(args) > 1 and isinstance(args[1], int):
+        return tuple([args[0]] * args[1])
+    return _i().FuncV('repeat', (args[0],))
+
+
+def _it_chain(interp, args, kwargs, state, node):
+    out = []
+    for a in args:
+        s_ = _static_or_list(interp, a, state)
+        if s_ is None:
+            raise _i().Unsupported('itertools.chain over a run-time '
+                                   'iterable at %s' % interp.site(node))
+        out.extend(s_)
+    return interp.alloc(state, _i().ListObj(out, origin=interp.site(node)))
+
+
+def _it_compress(interp, args, kwargs, state, node):
+    data = _static_or_list(interp, args[0], state)
+    sel = _static_or_list(interp, args[1], state)
+    if data is None or sel is None:
+        raise _i().Unsupported('itertools.compress over a run-time '
+                               'iterable at %s' % interp.site(node))
+    out = []
+    for d, s_ in zip(data, sel):
+        g = interp.truth(s_, state, node)
+        dec = interp.decide(g, state)
+        if dec is True:
+            out.append(d)
+        elif dec is None:
+            out.append(Sym('opt', g, (_t(d),), ()))
+    return interp.alloc(state, _i().ListObj(out, origin=interp.site(node)))
+
+
+def _fn_reduce(interp, args, kwargs, state, node):
+    f = args[0]
+    seq = _static_or_list(interp, args[1], state)
+    if seq is None or any(isinstance(x, Sym) and x.op == 'opt'
+                          for x in seq):
+        raise _i().Unsupported('functools.reduce over a run-time iterable '
+                               'at %s' % interp.site(node))
+    seq = list(seq)
+    if len(args) > 2:
+        acc = args[2]
+    elif seq:
+        acc = seq.pop(0)
+    else:
+        interp.raise_pending(state, E('builtins.TypeError'), node,
+                             'reduce() of empty iterable with no initial '
+                             'value', cond=True)
+        raise _i()._NoReturn()
+    for x in seq:
+        acc = interp.call_value(f, [acc, x], {}, state, node)
+    return acc
+
+
+def _b_sum(interp, args, kwargs, state, node):
+    seq = _static_or_list(interp, args[0], state)
+    if seq is None or any(isinstance(x, Sym) and x.op == 'opt'
+                          for x in seq):
+        return Sym('extcall', 'builtins.sum', tuple(_t(a) for a in args), ())
+    acc = args[1] if len(args) > 1 else 0
+    for x in seq:
+        acc = binop(interp, ast.Add(), acc, x, state, node)
+    return acc
+
+
+def int_to_bytes(interp, v, args, kwargs, state, node):
+    """int.to_bytes(length, byteorder='big', *, signed=False): the bytes a
+    struct integer field of that width would hold; OverflowError (not
+    struct.error) when the value does not fit."""
+    length = args[0] if args else kwargs.get('length', 1)
+    order = args[1] if len(args) > 1 else kwargs.get('byteorder', 'big')
+    signed = kwargs.get('signed', False)
+    codes = {(1, False): 'B', (1, True): 'b', (2, False): 'H',
+             (2, True): 'h', (4, False): 'I', (4, True): 'i',
+             (8, False): 'Q', (8, True): 'q'}
+    if not (isinstance(length, int) and isinstance(signed, bool) and
+            order in ('big', 'little') and (length, signed) in codes):
+        raise _i().Unsupported('int.to_bytes with length %r / byteorder %r '
+                               'at %s' % (length, order, interp.site(node)))
+    f = ('>' if order == 'big' else '<') + codes[(length, signed)]
+    if isinstance(v, bool):
+        v = int(v)
+    if isinstance(v, int) and not isinstance(v, Sym):
+        try:
+            return v.to_bytes(length, order, signed=signed)
+        except OverflowError:
+            interp.raise_pending(state, E('builtins.OverflowError'), node,
+                                 'int too big to convert', cond=True)
+            raise _i()._NoReturn()
+    t = state.kn.type_of(v)
+    if t is None or not t <= {'int', 'bool'}:
+        interp.raise_pending(state, E('builtins.AttributeError'), node,
+                             '.to_bytes on a value that may not be an int')
+    rng = T.fmt(f).value_range(0)
+    iv = T.interval(v, state.kn)
+    lo2, hi2 = state.kn.lin_interval(v) if isinstance(v, Sym) else (None,
+                                                                   None)
+    lo = iv[0] if lo2 is None else (lo2 if iv[0] is None else max(lo2,
+                                                                  iv[0]))
+    hi = iv[1] if hi2 is None else (hi2 if iv[1] is None else min(hi2,
+                                                                  iv[1]))
+    if not (lo is not None and hi is not None and lo >= rng[0] and
+            hi <= rng[1]):
+        interp.raise_pending(state, E('builtins.OverflowError'), node,
+                             'int.to_bytes: value out of range [%d, %d]' %
+                             rng)
+    return Sym('pack', f, (_t(v),))
+
+
+def _int_to_bytes_call(interp, args, kwargs, state, node):
+    return int_to_bytes(interp, args[0], args[1:], kwargs, state, node)
+
+
+def _sys_intern(interp, args, kwargs, state, node):
+    x = args[0]
+    t = state.kn.type_of(x) if isinstance(x, Sym) else (
+        {'str'} if isinstance(x, str) else {'other'})
+    if t is None or t != {'str'}:
+        interp.raise_pending(state, E('builtins.TypeError'), node,
+                             'sys.intern() of a value that may not be a str')
+    return x
 
 
 def _b_range(interp, args, kwargs, state, node):
@@ -833,6 +1174,10 @@ def _b_zip(interp, args, kwargs, state, node):
     seqs = [static_sequence(interp, a, state) for a in args]
     if all(s is not None for s in seqs):
         return tuple(zip(*seqs))
+    lz = _b_zip_lazy(interp, args, kwargs, state, node)
+    if lz is not None and not any(
+            isinstance(x, Sym) and x.op == 'opt' for t_ in lz for x in t_):
+        return tuple(lz)
     return Sym('zip', *[_t(a) for a in args])
 
 
@@ -1086,7 +1431,15 @@ _EXT_CALLS = {
     'builtins.dict': _b_dict, 'builtins.range': _b_range,
     'builtins.dict.fromkeys': _b_dict_fromkeys,
     'builtins.divmod': _b_divmod,
-    'itertools.groupby': _it_groupby,
+    'itertools.groupby': _it_groupby, 'sys.intern': _sys_intern,
+    'builtins.int.to_bytes': _int_to_bytes_call,
+    'functools.partial': _fn_partial, 'functools.reduce': _fn_reduce,
+    'operator.attrgetter': _op_factory('attrgetter'),
+    'operator.itemgetter': _op_factory('itemgetter'),
+    'operator.methodcaller': _op_factory('methodcaller'),
+    'builtins.map': _b_map, 'builtins.sum': _b_sum,
+    'itertools.count': _it_count, 'itertools.repeat': _it_repeat,
+    'itertools.chain': _it_chain, 'itertools.compress': _it_compress,
     'builtins.all': _b_all_any(True), 'builtins.any': _b_all_any(False),
     'builtins.min': _b_minmax('min'), 'builtins.max': _b_minmax('max'),
     'builtins.abs': _b_abs, 'builtins.ord': _b_ord,
@@ -1167,7 +1520,11 @@ def call_method(interp, recv, name, args, kwargs, state, node):
         if name in _PURE_CONST_METHODS and all(T.is_const(a) for a in args) \
                 and all(T.is_const(v) for v in kwargs.values()):
             try:
-                return getattr(recv, name)(*args, **kwargs)
+                res = getattr(recv, name)(*args, **kwargs)
+                if isinstance(res, list):
+                    return interp.alloc(state, _i().ListObj(
+                        res, origin=interp.site(node)))
+                return res
             except Exception as err:  # the constant operation itself fails
                 interp.raise_pending(state, E('builtins.' +
                                               type(err).__name__), node,
@@ -1188,6 +1545,8 @@ def call_method(interp, recv, name, args, kwargs, state, node):
         interp.effect('log', None, (name,) + tuple(T.show(a) for a in args),
                       node)
         return None
+    if name == 'to_bytes':
+        return int_to_bytes(interp, recv, args, kwargs, state, node)
     if name == 'encode':
         enc = args[0] if args else kwargs.get('encoding', 'utf-8')
         t = T.typeof(recv)
@@ -1274,6 +1633,14 @@ def do_join(interp, sep, seq, state, node):
 def call_container_method(interp, ref, name, args, kwargs, state, node):
     o = interp.obj(state, ref)
     ListObj, DictObj = _i().ListObj, _i().DictObj
+    if name == '__getitem__' and len(args) == 1:
+        return get_item(interp, ref, args[0], state, node)
+    if name == '__contains__' and len(args) == 1 and \
+            isinstance(o, DictObj) and not o.more and \
+            T.is_const(args[0]) and not isinstance(args[0], Sym):
+        return any(k == args[0] for k, _ in o.items)
+    if name == '__len__' and not args:
+        return _b_len(interp, [ref], {}, state, node)
     if name in MUTATING_METHODS:
         interp.effect('mutating-method', ref, (name, o.shared, o.origin),
                       node)
